@@ -6,6 +6,8 @@ package main
 import (
 	"fmt"
 	"github.com/ovn-org/libovsdb/ovsdb"
+	"sort"
+	"strings"
 
 	"github.com/ovn-org/libovsdb/updates"
 )
@@ -275,8 +277,14 @@ func c10Rows(r *Run, n int) {
 				}
 			}()
 			u1 := updates.ModelUpdates{}
-			if err := u1.AddOperation(db.Model, "T", uuid, db.NewModel("T", uuid, a), RowOperationJ{Op: "update", Row: upd}.toOvs("T")); err != nil {
+			cur1 := db.NewModel("T", uuid, a)
+			if err := u1.AddOperation(db.Model, "T", uuid, cur1, RowOperationJ{Op: "update", Row: upd}.toOvs("T")); err != nil {
 				failure = "AddOperation: " + err.Error()
+				return
+			}
+			// computing a difference does not alter the model it was computed from (order of set elements included)
+			if _, now := db.RowOf("T", cur1); rowExact(now) != rowExact(a) {
+				failure = "PURITY AddOperation(update) altered the current model it was given: " + rowExact(now)
 				return
 			}
 			mu := readUpdate(db, &u1, "T", uuid)
@@ -293,14 +301,24 @@ func c10Rows(r *Run, n int) {
 			n1, modify = mu.New.Row, mu.RU2.Modify
 			u2 := updates.ModelUpdates{}
 			mod := rowToOvs(modify)
-			if err := u2.AddRowUpdate2(db.Model, "T", uuid, db.NewModel("T", uuid, a), ovsdb.RowUpdate2{Modify: &mod}); err != nil {
+			cur2 := db.NewModel("T", uuid, a)
+			if err := u2.AddRowUpdate2(db.Model, "T", uuid, cur2, ovsdb.RowUpdate2{Modify: &mod}); err != nil {
 				failure = "AddRowUpdate2: " + err.Error()
+				return
+			}
+			// nor does applying one
+			if _, now := db.RowOf("T", cur2); rowExact(now) != rowExact(a) {
+				failure = "PURITY AddRowUpdate2(modify) altered the current model it was given: " + rowExact(now)
 				return
 			}
 			if m2 := readUpdate(db, &u2, "T", uuid); m2.New != nil {
 				n2 = m2.New.Row
 			}
 		}()
+		if strings.HasPrefix(failure, "PURITY") {
+			r.Violation("row-update", cs, failure, rowExact(a), true, "computing or applying a difference altered the model it was computed from", "")
+			continue
+		}
 		if failure != "" {
 			r.Violation("row-update", cs, failure, b.Canon(), true, "updating a row failed", "")
 			continue
@@ -317,4 +335,30 @@ func c10Rows(r *Run, n int) {
 			r.Violation("row-update", cs, fmt.Sprint(n2.Canon()), b.Canon(), true, "the modify row applied to the old model does not give the new model", "")
 		}
 	}
+}
+
+// rowExact renders a row without canonicalising the order of set elements and map pairs
+func rowExact(r Row) string {
+	var cols []string
+	for c := range r {
+		cols = append(cols, c)
+	}
+	sort.Strings(cols)
+	var parts []string
+	for _, c := range cols {
+		v := r[c]
+		switch {
+		case v == nil:
+			parts = append(parts, c+"=nil")
+		case v.K == 'S':
+			var es []string
+			for _, a := range v.S {
+				es = append(es, a.Key())
+			}
+			parts = append(parts, c+"=S["+strings.Join(es, ",")+"]")
+		default:
+			parts = append(parts, c+"="+v.Canon())
+		}
+	}
+	return strings.Join(parts, ";")
 }
